@@ -58,7 +58,9 @@ SetIterViol(e) ==
         <<"record_set_iterator_yields_len_items", \A k \in 1..Len(e.sets) : Len(e.sets[k].items) = e.sets[k].len>>,
         <<"record_set_iterator_fused", \A k \in 1..Len(e.sets) : \A j \in 1..Len(e.sets[k].after) : e.sets[k].after[j]>>,
         <<"owned_record_iterator_fused", \A j \in 1..Len(e.owned_after) : e.owned_after[j]>>,
-        <<"size_hint_brackets", e.hints_ok>>,
+        \* hints[i] was taken when i-1 items had been yielded; the last one after the end
+        <<"record_set_iterator_size_hint_brackets", \A k \in 1..Len(e.sets) : LET h == e.sets[k].hints  n == Len(e.sets[k].items) IN
+              \A i \in 1..Len(h) : LET rem == IF i - 1 <= n THEN n - (i - 1) ELSE 0 IN h[i][1] <= rem /\ (h[i][2] = -1 \/ h[i][2] >= rem)>>,
         <<"each_record_once_in_order", Len(items) <= Len(chain) /\ \A i \in 1..Len(items) :
               chain[i].okRec /\ items[i].head = chain[i].rec.head /\ items[i].lines = chain[i].rec.lines /\ items[i].qual = chain[i].rec.qual>>
       >>
